@@ -168,7 +168,16 @@ def _flop():
             "bbtypes": [["ff", ["clk", "d"], ["q"]]], "insts": [["u0", 0, {"clk": "clk", "d": "g", "q": "qb"}]]}
 
 
+def _flop_qn():
+    return {"name": "f2", "nodes": [["a", "input", [], False], ["clk", "input", [], False], ["qb", "buf", [], True],
+                                    ["u0_qn", "nand", ["a", "qb"], True], ["u0_q", "not", ["u0_qn"], True], ["u0_clk", "buf", ["clk"], False]],
+            "bbtypes": [["ffq", ["clk", "d"], ["q", "qn"]]], "insts": [["u0", 0, {"clk": "u0_clk", "d": "u0_qn", "q": "qb"}]]}
+
+
 def core(ctx):
+    for fn in NAMES:
+        yield {"fn": fn, "spec": _flop_qn(), "spec2": _plain(), "pick": 0, "edits": FIXED_EDITS[:3]}
+        yield {"fn": fn, "spec": _flop_qn(), "spec2": _plain(), "pick": 1, "edits": FIXED_EDITS[:3]}
     for fn in NAMES:
         for mk in (_plain, _flop):
             yield {"fn": fn, "spec": mk(), "spec2": _plain(), "pick": 3, "edits": FIXED_EDITS}
